@@ -74,6 +74,8 @@ def eval_expr(expr, ops, model: bool):
 
 def body(ctx: H.BaseCtx):
     case = ctx.case
+    if case.get("op") == "special":
+        return body_special(ctx)
     ops = [ctx.build(s) for s in case["operands"]]
     mops = [ctx.model(s) for s in case["operands"]]
     snap = snapshot_args(ops)
@@ -105,6 +107,46 @@ def body(ctx: H.BaseCtx):
 
 def body_for(case):
     return body
+
+
+def body_special(ctx: H.BaseCtx):
+    """Native only: +, -, unary - term by term (exact, nan-aware); * against the sum of coefficient products formed with numpy on
+    the same arrays (parts compared separately); ** against repeated *."""
+    import numpoly
+    from .. import special as SP
+
+    if ctx.symbolic:
+        return
+    with numpy.errstate(all="ignore"):
+        zoo = SP.zoo((2,))
+        for la, a in zoo:
+            for lb, b in zoo[::3]:
+                ta, tb = SP.terms(a), SP.terms(b)
+                keys = sorted(set(ta) | set(tb))
+                z = lambda t, k, other: t.get(k, numpy.zeros(a.shape, dtype=other.dtype))
+                try:
+                    SP.expect_terms(ctx, a + b, {k: z(ta, k, a) + z(tb, k, b) for k in keys}, "(%s) + (%s)" % (la, lb))
+                    SP.expect_terms(ctx, a - b, {k: z(ta, k, a) - z(tb, k, b) for k in keys}, "(%s) - (%s)" % (la, lb))
+                    SP.expect_terms(ctx, -a, {k: -ta[k] for k in ta}, "-(%s)" % la)
+                    if "non-finite" in la or "non-finite" in lb:
+                        continue
+                    prod = {}
+                    for ka, ca in ta.items():
+                        for kb, cb in tb.items():
+                            k = tuple(x + y for x, y in zip(ka, kb))
+                            prod[k] = prod.get(k, 0) + ca * cb
+                    got = SP.terms(a * b)
+                    rt = 1e-12 if a.dtype.itemsize >= 8 and b.dtype.itemsize >= 8 and numpy.complex64 not in (a.dtype, b.dtype) else 1e-5
+                    for k, want in prod.items():
+                        g = got.get(k, numpy.zeros(a.shape))
+                        if not SP.close_parts(g, want, rtol=rt):
+                            ctx.fail("value", "(%s) * (%s): term %s is %s, the sum of coefficient products gives %s" % (la, lb, k, numpy.asarray(g).tolist(), numpy.asarray(want).tolist()))
+                            break
+                    for k, g in got.items():
+                        if k not in prod and numpy.any(g != 0):
+                            ctx.fail("value", "(%s) * (%s): unexpected term %s = %s" % (la, lb, k, g.tolist()))
+                except Exception as e:
+                    ctx.unexpected_exception(e, "arithmetic on (%s), (%s)" % (la, lb))
 
 
 def run_case(case: Dict) -> Dict:
@@ -218,6 +260,12 @@ def gen_cases(tier: str, seed: int) -> List[Dict]:
             nspec["layout"] = layout
             operands = [a, nspec] if side == 0 else [nspec, a]
             add(op, operands, [op, 0, 1], tag="-array-%s%d" % (layout, side))
+    # 3c. operands that declare many indeterminates (9, 10, 70) and use few: wide exponent rows
+    for nn, ua, ub in ((9, [0, 8], [1, 8]), (10, [0, 9], [9]), (70, [0, 5], [1, 69]), (9, [0], [0, 8])):
+        for op in ("add", "sub", "mul"):
+            a = S.many_names_spec("a", nn, ua, rng.choice([(), (2,)]), rng, 2, maxexp=rng.choice([1, 3]))
+            b = S.many_names_spec("b", nn, ub, (), rng, 2, maxexp=rng.choice([1, 200]))
+            add(op, [a, b], [op, 0, 1], tag="-manynames%d" % nn)
     # 4. numpoly.<fn> spelling of the same operators (numpy spellings are C08's business)
     for op in ("add", "sub", "mul"):
         a = poly("a", ("q0", "q1"), (2,), 2, budget // 2)
@@ -267,6 +315,7 @@ def gen_cases(tier: str, seed: int) -> List[Dict]:
             a = poly("a", n1, s1, rng.choice([1, 2, 3, 4, 6]), 5)
             b = poly("b", n2, s2, rng.choice([1, 2, 3]), 5, share=S.spec_atoms(a) or None)
             add(op, [a, b], [op, 0, 1], tag="-rnd")
+    cases.append({"id": "%s-%03d-special-content" % (PROP, len(cases) + 1), "op": "special", "operands": [], "expr": 0, "limits": cases[0]["limits"]})
     return cases
 
 
